@@ -109,7 +109,34 @@ CN == Mul([n \in 1..SeriesN |-> Ratio(n)])                      \* c_N
 SeriesTail == Div(Mul(<<CN, Pow(Hh, SeriesN)>>), Sum(<<Qt(1, 1), Neg(Hh)>>))
 PerimLo == Mul(<<Pi(1, Sum(<<A1, A2>>)), Horner(1)>>)
 PerimHi == Mul(<<Pi(1, Sum(<<A1, A2>>)), Sum(<<Horner(1), SeriesTail>>)>>)
-Perimeter == IF cls = "Circle" THEN Pi(1, Mul(<<Qt(2, 1), A1>>)) ELSE [encl |-> <<PerimLo, PerimHi>>]
+\* A second enclosure that stays tight for needles (h -> 1, where the series above converges slowly): Gauss's
+\* arithmetic-geometric mean.  a_0 = max(a, b), b_0 = min(a, b), a_{n+1} = (a_n + b_n)/2, b_{n+1} = sqrt(a_n b_n),
+\* c_{n+1} = (a_n - b_n)/2 = c_n^2 / (4 a_{n+1});   b_n <= M(a, b) <= a_n;
+\*   P = 2 pi (a_0^2 - S) / M,   S = (a_0^2 - b_0^2)/2 + sum_{n>=1} 2^(n-1) c_n^2,   and the tail after N terms is at most
+\*   2^(N+1) c_(N+1)^2 once c_(N+1) <= b_N (each further term is at least eight times smaller).
+\* The sequences are bound by name in the record's env, so the term stays of size O(N).
+AgmN == 12
+AgA(n) == Ref("ag_a" \o ToString(n))
+AgB(n) == Ref("ag_b" \o ToString(n))
+AgC(n) == Ref("ag_c" \o ToString(n))
+AgmEnvOrdered ==
+    LET lo == AxMin({ax[1], ax[2]})  hi == AxMax({ax[1], ax[2]}) IN
+    << <<"ag_a0", AxRef(hi)>>, <<"ag_b0", AxRef(lo)>> >>
+    \o [k \in 1..3 * AgmN |->
+          LET n == ((k - 1) \div 3) + 1  j == (k - 1) % 3 IN
+          IF j = 0 THEN <<"ag_c" \o ToString(n), Mul(<<Qt(1, 2), Sum(<<AgA(n - 1), Neg(AgB(n - 1))>>)>>)>>
+          ELSE IF j = 1 THEN <<"ag_a" \o ToString(n), Mul(<<Qt(1, 2), Sum(<<AgA(n - 1), AgB(n - 1)>>)>>)>>
+          ELSE <<"ag_b" \o ToString(n), Sqrt(Mul(<<AgA(n - 1), AgB(n - 1)>>))>>]
+RECURSIVE Pow2(_)
+Pow2(n) == IF n = 0 THEN 1 ELSE 2 * Pow2(n - 1)
+AgmS == Sum(<<Mul(<<Qt(1, 2), Sum(<<Sq(AgA(0)), Neg(Sq(AgB(0)))>>)>>)>>
+            \o [n \in 1..AgmN - 1 |-> Mul(<<Qt(Pow2(n - 1), 1), Sq(AgC(n))>>)])
+AgmTail == Mul(<<Qt(Pow2(AgmN), 1), Sq(AgC(AgmN))>>)
+PerimLoA == Div(Pi(1, Mul(<<Qt(2, 1), Sum(<<Sq(AgA(0)), Neg(AgmS), Neg(AgmTail)>>)>>)), AgA(AgmN - 1))
+PerimHiA == Div(Pi(1, Mul(<<Qt(2, 1), Sum(<<Sq(AgA(0)), Neg(AgmS)>>)>>)), AgB(AgmN - 1))
+\* both enclosures are rigorous: the perimeter lies in their intersection (the harness also checks that they intersect)
+Perimeter == IF cls = "Circle" THEN Pi(1, Mul(<<Qt(2, 1), A1>>))
+             ELSE [encl |-> << [max |-> <<PerimLo, PerimLoA>>], [min |-> <<PerimHi, PerimHiA>>] >>]
 
 Volume == IF cls = "Sphere" THEN Pi(1, Mul(<<Qt(4, 3), Pow(A1, 3)>>))
           ELSE Pi(1, Mul(<<Qt(4, 3), A1, A2, A3>>))
@@ -178,13 +205,15 @@ Record ==
     [ k |-> "curved", cls |-> cls, sc |-> sc,
       env |-> [i \in 1..NAx(cls) |-> <<CASE i = 1 -> "a1" [] i = 2 -> "a2" [] i = 3 -> "a3", AxT(ax[i])>>]
               \o << <<"xc", CtrT(1)>>, <<"yc", CtrT(2)>>, <<"zc", CtrT(3)>> >>
-              \o (IF cls = "Ellipse" THEN << <<"h", HhDef>> >> ELSE <<>>),
+              \o (IF cls = "Ellipse" THEN << <<"h", HhDef>> >> \o AgmEnvOrdered ELSE <<>>),
       axes |-> [i \in 1..NAx(cls) |-> Ref(CASE i = 1 -> "a1" [] i = 2 -> "a2" [] i = 3 -> "a3")],
       axraw |-> ax,
       centre |-> <<Xc, Yc, Zc>>,
       isball |-> (cls \in {"Circle", "Sphere"}) \/ AllEqual \/ (cls = "Ellipse" /\ AxEq(ax[1], ax[2])),
       measure |-> IF Is2D THEN Area2D ELSE Volume,                 \* area / volume
       boundary |-> IF Is2D THEN Perimeter ELSE Surface,            \* perimeter / surface area
+      perim_series |-> IF cls = "Ellipse" THEN [encl |-> <<PerimLo, PerimHi>>] ELSE Qt(0, 1),
+      perim_agm |-> IF cls = "Ellipse" THEN [encl |-> <<PerimLoA, PerimHiA>>] ELSE Qt(0, 1),
       ecc2 |-> IF Is2D THEN Ecc2 ELSE Qt(0, 1),
       planar |-> IF Is2D THEN <<PlanarIx, PlanarIy, PlanarIxy>> ELSE <<>>,
       planar_dev |-> IF Is2D THEN Dev_PlanarParallelAxisSwapped ELSE <<>>,
